@@ -119,6 +119,31 @@ theorem row_dialog_general (cfg : Cfg) (o : Opts) (hd : o.dialog = true) (user t
   rw [turn_eq] at h; cases h
   exact turnCoreR_reply_general cfg (some o) hd user bot text
 
+/-! ## Several calls on one conversation -/
+
+/-- The one-shot context variable `$skip_output_rails` (set for predefined bot messages such as the refusal) is unset
+    again at the end of every turn, whatever was selected — so it cannot leak into the next `generate` call on the same
+    conversation state. -/
+theorem skip_flag_reset (cfg : Cfg) (opts : Option Opts) (user : String) (bot : Option String) (dlg : Dialog)
+    (out : PipelineOpts.Out) (h : turn Gd cfg opts user bot dlg = some out) : out.skipAfter = false :=
+  turn_skipAfter cfg opts user bot dlg out h
+
+/-- **A later call is not changed by an earlier one**: any sequence of `generate` calls on one carried conversation
+    (each with its own option subset, texts and dialog outcome) yields, call by call, exactly what the same calls yield on
+    fresh conversations — so every theorem above holds for every call of a conversation. -/
+theorem calls_independent (cfg : Cfg) (calls : List Call) :
+    session Gd cfg false calls = calls.mapM (fun c => turn Gd cfg c.opts c.user c.bot c.dlg) :=
+  session_eq cfg calls
+
+/-- why `skip_flag_reset` matters (finite fact, by evaluation): were the flag still set at a call boundary, a call that
+    selects only `output` would return the supplied bot message "evil" unchecked, calling no output rail. -/
+example : (turnFrom Gd exCfg true (some ⟨false, false, false, true⟩) "hi" (some "evil") (.general "x")).map
+      (fun o => (o.reply, ioCalls o.trace)) = some (.text "evil", []) := by decide
+/-- … whereas after a blocked input-only call it is the refusal with `out0` as the blocker. -/
+example : (session Gd exCfg false [⟨some ⟨true, false, false, false⟩, "bad", none, .general "x"⟩,
+      ⟨some ⟨false, false, false, true⟩, "hi", some "evil", .general "x"⟩]).map (fun os => os.map fun o => (o.reply, o.blocker))
+    = some [(.text "no", some (.input, "in0")), (.text "no", some (.output, "out0"))] := by decide
+
 /-! ## The generation log -/
 
 /-- **`stop` on exactly the blocking rail** — for EVERY processing log (induction over the log, any start state):
